@@ -369,6 +369,47 @@ func init() {
 		feStubs["(*"+R+"."+k.typ+").ReadAndAdd"] = samplerStub(k.kind, true)
 	}
 
+	// Keyed PRNG in the algebraic model: Read yields fresh arbitrary bytes; a generator created from a key is named by
+	// the content of the key, so that two generators built from the same (symbolic) seed yield the same sampled atoms
+	// (compressed evaluation keys and their expansion).
+	feStubs["(*"+lat+"/utils/sampling.KeyedPRNG).Read"] = func(x *Exec, fn *ssa.Function, args []Value) (Value, bool) {
+		sl, ok := args[1].(Slice)
+		if !ok {
+			return nil, false
+		}
+		p, _ := args[0].(Ptr)
+		for i := 0; i < sl.Len; i++ {
+			x.prngByteN++
+			id := 0
+			if p.Obj != nil {
+				id = p.Obj.ID
+			}
+			x.setCell(sl.Obj, sl.Off+i, x.ts.Var(fmt.Sprintf("prngbyte.%d.%d", id, x.prngByteN), SBV, 8))
+		}
+		return Tuple{x.ts.BV(uint64(sl.Len), 64), Iface{}}, true
+	}
+	feStubs[lat+"/utils/sampling.NewKeyedPRNG"] = func(x *Exec, fn *ssa.Function, args []Value) (Value, bool) {
+		sl, ok := args[0].(Slice)
+		if !ok {
+			return nil, false
+		}
+		pt, ok := fn.Signature.Results().At(0).Type().(*types.Pointer)
+		if !ok {
+			return nil, false
+		}
+		o := x.NewObject(x.lay.Cells(pt.Elem()), pt.Elem(), "keyedprng")
+		x.ZeroInto(o.Cells, pt.Elem())
+		name := "seed"
+		for i := 0; i < sl.Len; i++ {
+			name += fmt.Sprintf(".%d", x.term(sl.Obj.Cells[sl.Off+i]).ID)
+		}
+		if x.prngKeys == nil {
+			x.prngKeys = map[*Object]string{}
+		}
+		x.prngKeys[o] = name
+		return Tuple{Ptr{o, 0}, Iface{}}, true
+	}
+
 	// ringqp.Ring.ExtendBasisSmallNormAndCenter(polyInQ, levelP, polyOutQ, polyOutP): the P limbs hold "the same small
 	// polynomial": fresh atoms of the same class (nothing is assumed across limbs)
 	feStubs["("+R+"/ringqp.Ring).ExtendBasisSmallNormAndCenter"] = func(x *Exec, fn *ssa.Function, args []Value) (Value, bool) {
